@@ -87,7 +87,9 @@ def gen_atoms(rng, n, tag="S", id_base=1000.0, cell="ortho", kinds=None, tables=
             atom_types[t] = t
     kw.update(atom_types=atom_types if n > 0 else [], positions=pos if n > 0 else [],
               atom_type_elements=type_el, atom_type_masses=[masses[e] for e in type_el],
-              atom_type_labels=["%s_%s%d" % (tag, e, t) for t, e in enumerate(type_el)],
+              # when types share an element, half of the time they also share the label (the element symbol, as after loading a file
+              # without label comments): the types then differ only in what their id resolves to in the pair table
+              atom_type_labels=(list(type_el) if (share and len(set(type_el)) < len(type_el) and rng.integers(2)) else ["%s_%s%d" % (tag, e, t) for t, e in enumerate(type_el)]),
               charges=[uid(id_base, i) for i in range(n)], groups=[int(x) for x in rng.integers(0, 3, n)])
     if pair if pair is not None else bool(rng.integers(2)):
         kw["pair_coeffs"] = ["%s_pair_%d 0.%d 3.%d" % (tag, t, t + 1, t) + (" # %s%d" % (tag, t) if labels_with_comment else "") for t in range(nt)]
